@@ -2837,6 +2837,12 @@ static void handle_oc_class(Chunk *pc)
          break;
       }
 
+      if (tmp->Is(CT_IGNORED))
+      {
+         // text of a disabled region is not ours to retype or split
+         continue;
+      }
+
       if (tmp->Is(CT_PAREN_OPEN))
       {
          passed_name = true;
